@@ -237,7 +237,7 @@ class World:
                 idx = getattr(f.args[1], "index", None) if len(f.args) > 1 else None
                 if idx not in self.never and idx not in self.late:
                     acts.append(("finish", f))
-        if self.timer is not None and self.timer_dead is None and self.timer._pending_resumes and not self.timer._shutdown.is_set():
+        if self.timer is not None and self.timer_dead is None and timer_pending(self.timer) and not timer_stop_event(self.timer).is_set():
             acts.append(("timer", None))
         if not acts and pool is not None:
             for f in pool.running:
@@ -312,8 +312,9 @@ class World:
     def timer_step(self):
         """the timer thread runs until its next wait; virtual time jumps to the next due resume if nothing is due yet"""
         t = self.timer
-        if t._pending_resumes and t._pending_resumes[0][0] > Clock.now:
-            Clock.now = t._pending_resumes[0][0]
+        pend = timer_pending(t)
+        if pend and pend[0][0] > Clock.now:
+            Clock.now = pend[0][0]
         if self.timer_gen is None:
             self.timer_gen = t._co__timer_loop()
         for _ in range(4):   # one loop iteration may need a couple of segments (peek, pop+resubmit)
@@ -343,6 +344,29 @@ class WEvent(sched.VEvent):
         if not self.flag and World.current is not None:
             World.current.block_on(self)
         return self.flag
+
+
+
+def timer_pending(t):
+    """the scheduler's heap of (resume_time, seq, exe_state): found by type - private names are the implementation's business"""
+    for v in vars(t).values():
+        if isinstance(v, list):
+            return v
+    raise AssertionError("TimerScheduler has no list attribute (pending resumes)")
+
+
+def timer_stop_event(t):
+    for v in vars(t).values():
+        if isinstance(v, WEvent):
+            return v
+    raise AssertionError("TimerScheduler has no Event attribute (shutdown signal)")
+
+
+def completion_event(ex):
+    for v in vars(ex).values():
+        if isinstance(v, WEvent):
+            return v
+    raise AssertionError("executor has no Event attribute (completion signal)")
 
 
 class VThread:
@@ -394,10 +418,11 @@ def install():
     E.time = Clock
     M.time = Clock
     M.threading = _Threading
-    _installed["timer"] = colower.lower_method(E.TimerScheduler, "_timer_loop", {"_shutdown.wait"})
+    # (a timed Event.wait is where the timer thread sleeps; the attribute holding the event is found by its call shape, not by its private name)
+    _installed["timer"] = colower.lower_method(E.TimerScheduler, "_timer_loop", {"wait"})
     assert _installed["timer"] >= 2, _installed
     CB_POINTS = {"complete", "fail", "suspend", "suspend_with_timeout", "complete_task", "fail_task", "schedule_resume", "should_complete",
-                 "should_execution_suspend", "_completion_event.set", "result"}
+                 "should_execution_suspend", "set", "result"}
     _installed["callback"] = colower.lower_method(E.ConcurrentExecutor, "_on_task_complete", CB_POINTS)
     assert _installed["callback"] >= 6, _installed
 
